@@ -62,3 +62,16 @@ package unixfsnode
 //@ func unixfsnode.UnixFSPathSelectorBuilder
 //@ prop C03
 //@ at call github.com/ipld/go-ipld-prime.ParsePath#1 assert path-is-parsed-as-given: callee_pth == path
+
+// C15: the native accessor agrees with LookupByString: it scans the same links for the same name.
+//@ func (*unixfsnode._PathedPBNode).Lookup
+//@ prop C15
+//@ at call utils.Lookup#1 assert scans-its-own-links-for-this-key: callee_key == key.x && callee_links.x == n._substrate.Links.x
+
+// C14: the file reifiers hand the node they were given (and nothing else) to the file constructors.
+//@ func unixfsnode.unixFSFileReifier
+//@ prop C14
+//@ at call file.NewUnixFSFile#1 assert reifies-the-node-it-was-given: callee_substrate == substrate && callee_lsys == ls
+//@ func unixfsnode.unixFSFileReifierWithPreload
+//@ prop C14 C06
+//@ at call file.NewUnixFSFileWithPreload#1 assert reifies-the-node-it-was-given: callee_substrate == substrate && callee_lsys == ls
